@@ -78,9 +78,9 @@ struct Scenario {
     events: Vec<Ev>,
 }
 
-#[derive(Clone, Debug)]
+#[derive(Serialize, Deserialize, Clone, Debug)]
 struct Strategy {
-    name: &'static str,
+    name: String,
     /// probability (permille) of choosing IN when both IN and OUT are enabled and the writer is blocked
     p_in_blocked: u64,
     /// probability (permille) of granting credit although the writer is not blocked
@@ -101,7 +101,7 @@ fn gen_strategy(rng: &mut Rng) -> Strategy {
     };
     let out_max = *rng.pick(&[24u64, 300, 2000, 6000, 16384]);
     Strategy {
-        name,
+        name: name.to_string(),
         p_in_blocked,
         p_pregrant,
         out_max,
@@ -887,7 +887,7 @@ struct RunReport {
 /// Execute + reference + judge, inside a fresh simulated process instance. Pure function of (scenario, decisions/strategy).
 fn run_once(scn: Scenario, mode: RunMode, dir: PathBuf) -> Result<RunReport, String> {
     let hash_seed = scn.hash_seed;
-    par::instance(hash_seed, None, move || {
+    par::instance_timeout(hash_seed, None, std::time::Duration::from_secs(60), move || {
         write_project(&dir, &scn);
         let fin = final_state(&scn);
         let plan = probe_plan(&scn, &fin);
@@ -954,6 +954,7 @@ enum RunMode {
 fn has_class(r: &Result<RunReport, String>, class: &str) -> bool {
     match r {
         Ok(rep) => rep.findings.iter().any(|f| f.class == class),
+        Err(e) if par::is_watchdog(e) => class == "no-convergence",
         Err(_) => class == "crash",
     }
 }
@@ -1127,7 +1128,7 @@ fn shape_of(scn: &Scenario) -> String {
 fn budget_runs(t: Tier) -> u64 {
     match t {
         Tier::Quick => simcore::scaled(60_000),
-        Tier::Thorough => simcore::scaled(2_000_000),
+        Tier::Thorough => simcore::scaled(1_500_000),
     }
 }
 
@@ -1144,12 +1145,13 @@ fn worker_main(args: &[String], spec: par::WorkerSpec) {
     let mut workload_fps: BTreeSet<u64> = BTreeSet::new();
     let mut samples: Vec<Value> = Vec::new();
     let mut done = 0u64;
+    let mut watchdog_hit = false;
     let mut bump = |c: &mut BTreeMap<String, u64>, k: &str, n: u64| *c.entry(k.to_string()).or_insert(0) += n;
     let mut i = spec.index;
     while i < runs {
         let seed = mix(root, PROPERTY, i);
         let (scn, st) = gen_scenario(seed);
-        let stname = st.name;
+        let stname = st.name.clone();
         let wfp = fnv(shape_of(&scn).as_bytes());
         let rep = run_once(scn, RunMode::Random(seed, st), dir.clone());
         done += 1;
@@ -1178,9 +1180,17 @@ fn worker_main(args: &[String], spec: par::WorkerSpec) {
                     viol.push(json!({"index": i, "seed": seed, "class": f.class, "detail": f.detail}));
                 }
             }
+            Err(p) if par::is_watchdog(&p) => {
+                // a synchronous infinite loop inside one poll: the abandoned thread keeps spinning, so this worker stops here
+                viol.push(json!({"index": i, "seed": seed, "class": "no-convergence", "detail": format!("the server did not return from a single poll: {p}")}));
+                watchdog_hit = true;
+            }
             Err(p) => {
                 viol.push(json!({"index": i, "seed": seed, "class": "crash", "detail": format!("harness thread panicked: {p}")}));
             }
+        }
+        if watchdog_hit {
+            break;
         }
         i += spec.count;
     }
@@ -1199,7 +1209,11 @@ fn worker_main(args: &[String], spec: par::WorkerSpec) {
         "counters": counters,
         "workloads": workload_fps.iter().map(|x| format!("{x:x}")).collect::<Vec<_>>(),
         "samples": samples,
+        "stopped_by_watchdog": watchdog_hit,
     }));
+    if watchdog_hit {
+        std::process::exit(0);
+    }
 }
 
 fn c18_main(args: &[String]) {
@@ -1279,7 +1293,21 @@ fn c18_main(args: &[String]) {
             taken += 1;
             let (scn, st) = gen_scenario(*seed);
             // re-run from the seed to obtain the explicit decision trace, then confirm that the trace alone reproduces it
-            let first = run_once(scn.clone(), RunMode::Random(*seed, st), dir.clone());
+            let first = run_once(scn.clone(), RunMode::Random(*seed, st.clone()), dir.clone());
+            if let Err(e) = &first {
+                if par::is_watchdog(e) {
+                    // no decision trace exists for a run that never returned: the replay re-runs the seeded schedule
+                    out_viol.push(Violation {
+                        property: PROPERTY.into(),
+                        class: class.clone(),
+                        fingerprint: format!("{}|hang-in-poll|{}", class, shape_of(&scn)),
+                        seed: *seed,
+                        detail: format!("{e}\n  history: {:?}\n  original run index {idx}: {detail}", scn.events.iter().map(|e| e.short()).collect::<Vec<_>>()),
+                        replay: json!({"engine": "lspsim", "expect_class": class, "scenario": scn, "decisions": [], "random_schedule": {"seed": seed, "strategy": st}}),
+                    });
+                    break;
+                }
+            }
             if !has_class(&first, class) {
                 simcore::harness_error(&format!("run {idx} (seed {seed}) did not reproduce class {class} when re-run from its seed: nondeterminism in the simulator"));
             }
@@ -1371,7 +1399,14 @@ fn replay_main(args: &[String]) {
     let decs: Vec<Dec> = serde_json::from_value(rp["decisions"].clone()).unwrap_or_else(|e| simcore::harness_error(&format!("decisions: {e}")));
     let class = rp["expect_class"].as_str().unwrap_or("").to_string();
     let scratch = lsp::scratch_root("c18-replay");
-    let rep = run_once(scn, RunMode::Replay(decs), scratch.join("p"));
+    let mode = match rp.get("random_schedule") {
+        Some(rs) if rs.is_object() => {
+            let st: Strategy = serde_json::from_value(rs["strategy"].clone()).unwrap_or_else(|e| simcore::harness_error(&format!("strategy: {e}")));
+            RunMode::Random(rs["seed"].as_u64().unwrap_or(0), st)
+        }
+        _ => RunMode::Replay(decs),
+    };
+    let rep = run_once(scn, mode, scratch.join("p"));
     let _ = std::fs::remove_dir_all(&scratch);
     match &rep {
         Ok(r) => println!("{}", serde_json::to_string_pretty(&r.summary).unwrap_or_default()),
